@@ -292,3 +292,16 @@ PLANS["C08"].proofs += _OFFR
 PLANS["C18"].proofs += [p for p in _OFFR if "_out_" in p[1]]
 PLANS["C11"].proofs += [("contracts.registry", "RegistryDeepcopy")]     # a deep copy: own table, same rows, empty memo
 PLANS["C10"].proofs += [("contracts.registry", "GetBaseEquivalent")]    # result bound to the converted unit's registry
+
+# a python list of quantities (constructor / binary-ufunc operand): coerced to the first member's unit with
+# values converted (C16, zero points included: C08), refused for different dimensions, units never dropped (C01)
+_COERCE = [("contracts.accessors", n) for n in ("CoerceSeqQQ", "CoerceSeqQQQ", "CoerceSeqNumberFirst")]
+PLANS["C01"].proofs += _COERCE
+PLANS["C08"].proofs += _COERCE[:1]
+
+# reductions (np.sum / max / min / prod and the ndarray methods reach __array_ufunc__ as <ufunc>.reduce):
+# value law over the SI magnitudes and dimension (C04), the reduction NumPy runs on the bare data over the
+# axis the caller asked for (C06), operand untouched (C18), result class (C16)
+_RED = [("contracts.ufunc", n) for n in _U.REDUCTIONS]
+for _pid in ("C04", "C06", "C18", "C16"):
+    PLANS[_pid].proofs += _RED
